@@ -145,12 +145,30 @@ def spliced_docs(blocks, per_doc=120):
     return out
 
 
+def collision_docs():
+    """Pseudo pushes of different kinds whose operands denote the same number but are spelled differently (tags are
+    decimal, sub-assembly references are 64 hex digits, data / immutable references are hashes): the kinds are
+    separate name spaces."""
+    import itertools
+    long1 = "0" * 63 + "1"
+    kinds = [("PUSH [tag]", "1"), ("PUSH [$]", long1), ("PUSH #[$]", long1), ("PUSH data", "01"),
+             ("PUSHIMMUTABLE", "0001"), ("PUSH [tag]", "10"), ("PUSH data", "0A"), ("PUSH [$]", "0" * 62 + "10")]
+    blocks = []
+    for a, b in itertools.permutations(kinds, 2):
+        if a[0] == b[0]:
+            continue
+        blocks.append([a, b, ("ADD", None), ("DUP1", None), ("POP", None), ("STOP", None)])
+        blocks.append([a, ("PUSH", 0), ("ADD", None), b, ("SWAP1", None), ("POP", None), ("STOP", None)])
+    return spliced_docs(blocks, 40)
+
+
 def unit_sets(tier):
     shipped = sorted(glob.glob(os.path.join(repo.REPO, "examples", "jsons-solc", "*.json_solc")), key=os.path.getsize)
     c1 = configs.configs(1)
     if tier == "quick":
         yield "shipped(4 smallest)", [("file", f) for f in shipped[:4]], c1[:1] + [c for c in c1 if "-storage" in c or "-size" in c]
         yield "spliced(MIXED,3)", [("doc", d) for d in spliced_docs(list(B.tree(B.MIXED, 3)))], c1
+        yield "pseudo-collisions", [("doc", d) for d in collision_docs()], c1[:1]
         gd = list(c15.gen_docs())
         yield "grammar", [("doc", d) for d in gd[::3] + gd[-3:]], c1[:1] + [c for c in c1 if "-push0" in c]
     else:
@@ -159,6 +177,7 @@ def unit_sets(tier):
         yield "spliced(MIXED,4)", [("doc", d) for d in spliced_docs(list(B.tree(B.MIXED, 4)), 400)], c1
         yield "spliced(CORE,3)", [("doc", d) for d in spliced_docs(list(B.tree(B.CORE, 3)), 400)], c1
         yield "grammar", [("doc", d) for d in c15.gen_docs()], c1
+        yield "pseudo-collisions", [("doc", d) for d in collision_docs()], c1
 
 
 def main(tier, seed, only=None):
